@@ -89,7 +89,8 @@ def gen_class(rng, lang: str, idx: int, target_methods: int):
         for m in members:
             noise("  ")
             if m == "pub":
-                head = f"  {nm('act')}() {{"
+                # a method is a method however it is named: identifier, string, number, computed key
+                head = rng.choice([f"  {nm('act')}() {{"] * 3 + [f"  '{nm('to-json')}'() {{", f"  {100 + k[0]}() {{", f"  [Symbol.for('{nm('sym')}')]() {{", f"  [\"{nm('key')}\" + SUFFIX]() {{"])
             elif m == "asyncPub":
                 head = f"  async {nm('co')}() {{"
             elif m == "priv":
